@@ -874,6 +874,7 @@ class C19(CaseSpec):
         for cls in ("D", "U"):
             out += oc.gen_enumerated(cls, rng, tier)
             out += oc.gen_random(cls, rng, 3000 if tier == "thorough" else 150)
+            out += oc.gen_lookup(cls, rng, 2000 if tier == "thorough" else 150)
         return out
 
     def exhaustive(self, tier):
@@ -1135,6 +1136,7 @@ class C15(CaseSpec):
             out += cc.gen_roundtrip(cls, r2, tier)[::(3 if not thorough else 1)]
             out += cc.gen_untrusted(cls, r2, tier)[::(3 if not thorough else 1)]
             out += oc.gen_random(cls, r2, 60 if not thorough else 600)
+            out += oc.gen_lookup(cls, r2, 40 if not thorough else 400)
             out += mu.gen_cases(cls, r2, tier)[::(40 if not thorough else 5)]
             # edge comparison traits
             steps = ["new 5 0", "new 3 1", "con 0 1 7", "con 0 1 8", "con 1 0 7", "con 0 0 7"]
